@@ -66,8 +66,14 @@ def _w_deep_eq():
 @carveout("nested_root_is_not_current")
 def _nested_root(ctx):
     """The embedded relative query is started with the candidate as its own root: wrong exactly
-    when the candidate is not the root of the query argument."""
-    return ctx.inputs["root"] != ctx.inputs["current"]
+    when the candidate is not the root of the query argument.  Implemented as a spec switch (not as
+    an excluded input region, which would leave only `current == root` under contract): under the
+    carve-out the spec's relative query takes its start node as the root too - the finding, and nothing
+    else, built in - so every candidate, strings and scalars included, stays covered."""
+    return z3.BoolVal(False)
+
+
+_nested_root.flag = "nested_root_is_current"
 
 
 @witness("nested_dollar_denotes_candidate")
